@@ -132,6 +132,13 @@ fn skip_number_body<const N: usize>() {
 }
 
 #[kani::proof]
+#[kani::unwind(7)]
+#[kani::stub(crate::error::Error::syntax, crate::error::verif_kani_error::syntax_cut)]
+fn u_skip_number_n5() {
+    skip_number_body::<5>();
+}
+
+#[kani::proof]
 #[kani::unwind(8)]
 #[kani::stub(crate::error::Error::syntax, crate::error::verif_kani_error::syntax_cut)]
 fn u_skip_number_n6() {
@@ -563,14 +570,7 @@ fn m_skip_array_n6() {
 }
 
 /// C02/C14 M-skip_object: reader just after `{`.
-#[kani::proof]
-#[kani::unwind(9)]
-#[kani::stub(crate::error::Error::syntax, crate::error::verif_kani_error::syntax_cut)]
-#[kani::stub(Parser::skip_one, model_skip_one)]
-#[kani::stub(Parser::skip_string, model_skip_string)]
-#[kani::stub(Parser::skip_space, model_skip_space)]
-fn m_skip_object_n7() {
-    const N: usize = 7;
+fn skip_object_body<const N: usize>() {
     let buf: [u8; N] = kani::any();
     let n: usize = kani::any();
     kani::assume(n <= N);
@@ -588,6 +588,26 @@ fn m_skip_object_n7() {
     kani::cover!(r.is_ok() && unsafe { NESTED_CALLS } == 0);
     kani::cover!(r.is_err() && unsafe { NESTED_CALLS } >= 1);
     core::mem::forget(r);
+}
+
+#[kani::proof]
+#[kani::unwind(8)]
+#[kani::stub(crate::error::Error::syntax, crate::error::verif_kani_error::syntax_cut)]
+#[kani::stub(Parser::skip_one, model_skip_one)]
+#[kani::stub(Parser::skip_string, model_skip_string)]
+#[kani::stub(Parser::skip_space, model_skip_space)]
+fn m_skip_object_n6() {
+    skip_object_body::<6>();
+}
+
+#[kani::proof]
+#[kani::unwind(9)]
+#[kani::stub(crate::error::Error::syntax, crate::error::verif_kani_error::syntax_cut)]
+#[kani::stub(Parser::skip_one, model_skip_one)]
+#[kani::stub(Parser::skip_string, model_skip_string)]
+#[kani::stub(Parser::skip_space, model_skip_space)]
+fn m_skip_object_n7() {
+    skip_object_body::<7>();
 }
 
 // ---------------------------------------------------------------------------------------------
@@ -891,4 +911,32 @@ fn b_skip_space_cache_w2() {
     kani::cover!(at == 14);
     kani::cover!(at == 5 && buf[2] != b' ');
     kani::cover!(p.nospace_start == 2 && at > 8);
+}
+
+/// C10 B-get_next_token: 40-byte buffer, 8-byte symbolic window at 28..36 across the block edge,
+/// neutral elsewhere, from start index 0: the token search (32-byte block then scalar tail)
+/// finds the first occurrence of either token.
+#[kani::proof]
+#[kani::unwind(4)]
+fn b_get_next_token_w28() {
+    const N: usize = 40;
+    let buf = windowed::<N, 8>(28, b'x');
+    let adv: usize = kani::any();
+    kani::assume(adv <= 1);
+    let mut p = mk(&buf[..]);
+    let r = p.get_next_token([b'"', b'}'], adv);
+    let mut j = 0;
+    while j < N && buf[j] != b'"' && buf[j] != b'}' {
+        j += 1;
+    }
+    if j < N {
+        assert_eq!(r, Some(buf[j]));
+        assert_eq!(p.read.index(), j + adv);
+    } else {
+        assert_eq!(r, None);
+        assert_eq!(p.read.index(), N);
+    }
+    kani::cover!(j == 31);
+    kani::cover!(j == 32);
+    kani::cover!(j == N);
 }
